@@ -1081,8 +1081,7 @@ func H_C08_late() {
 	r, err := bs.BufferReader().ReadBytes(rd) // zero-copy, not released
 	vfAssert(err == nil && len(r) == rd, "C08.read-len")
 	w.b[0].read += rd
-	dataOff := vfOffsetIn(r, w.mem)
-	vfAssert(dataOff >= 0, "C08.result-lives-in-shared-memory")
+	dataOff := vfOffsetIn(r, w.mem) // -1: the message came through the socket (shared memory exhausted)
 	w.send(1, true, 3)  // the other stream: its polling event is on the wire
 	w.send(0, true, 25) // more than shared memory offers: socket fallback, behind it on the wire
 	w.closeEnd(0, true) // the close travels through the queue
@@ -1097,7 +1096,9 @@ func H_C08_late() {
 			vfAssert(r[j] == w.b[0].model[j], "C08.result-intact-until-release")
 		}
 	}
-	vfAssert(!w.sliceIsFree(dataOff), "C08.pinned-buffer-not-recycled-before-release")
+	if dataOff >= 0 {
+		vfAssert(!w.sliceIsFree(dataOff), "C08.pinned-buffer-not-recycled-before-release")
+	}
 	// other traffic allocates and frees meanwhile
 	w.send(1, true, []int{3, 9}[vfShape("other", 0, 1)])
 	w.deliverAB()
